@@ -369,8 +369,11 @@ nni_get_port_by_name(const char *name, uint32_t *portp)
 	long            port;
 	char           *end = NULL;
 
+	// strtol skips leading white space and accepts a sign; a port
+	// number is made of digits only, so insist on a leading digit.
 	port = strtol(name, &end, 10);
-	if ((*end == '\0') && (port >= 0) && (port <= 0xffff)) {
+	if ((name[0] >= '0') && (name[0] <= '9') && (*end == '\0') &&
+	    (port >= 0) && (port <= 0xffff)) {
 		*portp = (uint16_t) port;
 		return (0);
 	}
